@@ -38,7 +38,8 @@ func (w *world) fork() {
 		return
 	}
 	// first the way an operator who changes no flag would do it; the replica is thrown away
-	if _, err := simnet.NewReplicaFromExport("D0", exp, w.now, false); err != nil {
+	d0, err := simnet.NewReplicaFromExport("D0", exp, w.now, false)
+	if err != nil {
 		sig := "default-flags"
 		if strings.Contains(err.Error(), "invariant broken") {
 			sig = "default-flags/genesis-invariants" + w.invariantClass(err.Error())
@@ -53,6 +54,15 @@ func (w *world) fork() {
 	}
 	w.D, w.dLive = d, true
 	run.Fault("fork-from-export")
+	if d0 != nil {
+		// two fresh nodes given the same genesis file must hold bit-identical state: InitGenesis is part of
+		// "the same history" (an InitGenesis that ranges over a Go map while writing shows here)
+		classes, examples := simnet.DiffStoreClassesCtx(d0, d, d0.PendingCtx(), d.PendingCtx(), nil)
+		run.Count("import-twice-compared")
+		for _, c := range classes {
+			w.report("import-nondeterministic", c, "height %d: two fresh replicas initialised from the same export of A hold different raw state in key class %s: %.300s", w.h, c, examples[c])
+		}
+	}
 	mods := make([]string, 0, len(expA))
 	for m := range expA {
 		mods = append(mods, m)
